@@ -16,7 +16,7 @@ Proof.
   intros Hi Hp Hl.
   assert (Hlt : p < nxt s) by (eapply inv_lt; eassumption).
   destruct Hi as [Aheap Amem1 Amem2 Aown Afresh Atag Adead Ainner Aitag Ainj Aiown Agin Apres Adev Abuf Acur Acurinj
-                  Ahand Avars Avinj AT ATnd Alive Alognd Alog AD].
+                  Ahand Avars Avinj AT ATnd Alive Alognd Alog AD Acs].
   constructor; simpl_st; try assumption.
   - destruct Aheap. constructor; simpl_st; assumption.
   - intros e He. destruct (Afresh e He) as (A1 & A2 & A3 & A4 & A5 & A6 & A7 & A8 & A9). repeat split; try tauto.
@@ -95,6 +95,115 @@ Proof.
     assert (Hu2 : ouse s2 b = ouse s b) by (unfold s2; simpl_st; now rewrite S5). rewrite Hu2.
     unfold G'. rewrite upd2_other by (right; discriminate).
     destruct (ouse s b) eqn:Eu; [|reflexivity]. destruct (G b SH) eqn:EG; [exfalso; now apply Hlive|reflexivity].
+Qed.
+
+(* ~modeMemory_t of a memory that is still entered in its buffer *)
+Lemma delete_mem f X W D T G s m :
+  inv X W D T G s -> alive s m = true -> tagof s m = TO KMem -> ~ In m D -> In m W -> ~ In m X ->
+  (forall b, obuf s m = Some b -> ~ In b W /\ ~ In b D) ->
+  measure s + 6 <= f ->
+  exists G' s', exec f (TDelete m) s = Some (tt, s') /\ inv X W D T G' s' /\ alive s' m = false /\
+                shrink s s' /\
+                (forall x, alive s x = true -> alive s' x = false -> x = m \/ obuf s m = Some x).
+Proof.
+  intros Hi Hm Ht Hd Hw Hnx Hbw Hf.
+  destruct f as [|f]; [lia|]. cbn [exec].
+  destruct (delete_prologue vkind X W D T G s m KMem Hi Hm Ht Hd) as (R1 & R2 & R3 & Hi1 & Hlog).
+  set (s1 := set_dlog s (m :: dlog s)) in *.
+  erewrite bind_run by exact R1. erewrite bind_run by apply get_run. rewrite R2. cbv beta iota.
+  erewrite bind_run by exact R3.
+  assert (Hm1 : measure s1 = measure s) by apply measure_dlog.
+  assert (Hsh01 : shrink s s1) by apply shrink_dlog.
+  destruct (null_spec vkind (length (G m SH)) f X W (m :: D) T G s1 m eq_refl) as
+      (s2 & Hex2 & Hi2 & Hsh2 & Hal2 & Hob2 & Hoi2 & Hdl2 & Hpr2); try assumption.
+  { pose proof (ring_len_measure vkind _ _ _ _ _ _ m SH Hi1) as H. lia. }
+  set (G2 := upd2 G m SH []) in *.
+  assert (Hm2 : alive s2 m = true) by (rewrite Hal2; exact Hm).
+  pose proof Hsh2 as (E1 & Etag & _ & _ & _ & Eodev & Egin & _).
+  assert (Ht2 : tagof s2 m = TO KMem) by (rewrite Etag; exact Ht).
+  assert (Hms2 : measure s2 <= measure s) by (rewrite <- Hm1; now apply shrink_measure).
+  assert (Hobs : obuf s2 m = obuf s m) by (rewrite Hob2; reflexivity).
+  destruct (obuf s m) as [b|] eqn:Eb.
+  2:{ exfalso. apply (i_buf _ _ _ _ _ _ _ Hi m Hm Ht Hnx). exact Eb. }
+  destruct (Hbw b eq_refl) as [Hbw1 Hbd1].
+  assert (Hin : In m (G2 b SMem)).
+  { apply (i_mem2 _ _ _ _ _ _ _ Hi2); try assumption. unfold home. now rewrite Ht2, Hobs. }
+  destruct (member_facts _ _ _ _ _ _ _ _ _ _ Hi2 Hin) as (_ & Hab2 & _ & _ & Hfit).
+  destruct (fits_SMem _ _ Hfit) as (_ & Htb2).
+  assert (Hbm : b <> m) by (intros ->; rewrite Ht2 in Htb2; destruct Htb2; discriminate).
+  destruct (unlink_child X W (m :: D) T G2 s2 b m Hi2 Hin Hbw1) as
+      (s3 & Hrun3 & Hsh3 & Hms3 & Hal3 & Hdl3 & Hob3 & Hcase).
+  set (G3 := upd2 G2 b SMem (ring_remove m (G2 b SMem))) in *.
+  assert (Hm3 : alive s3 m = true) by (rewrite Hal3; exact Hm2).
+  assert (Hsh03 : shrink s s3).
+  { eapply shrink_trans; [exact Hsh01|]. eapply shrink_trans; eassumption. }
+  (* the state after the conditional delete of the buffer *)
+  assert (Hstep : exists G4 s4,
+     (nf <- buf_needsFree b;; (if nf then exec f (TDelete b) else ret tt);;; wr_obuf m None) s3
+       = Some (tt, set_obuf s4 (upd (obuf s4) m None)) /\
+     inv (m :: X) W (m :: D) T G4 s4 /\ shrink s3 s4 /\ alive s4 m = true /\ G4 m SH = [] /\
+     (forall x, alive s3 x = true -> alive s4 x = false -> x = b)).
+  { destruct Hcase as [(Hnf & Hi3)|(Hnf & Htb & Hnil & Hi3)].
+    - exists G3, s3. split.
+      { erewrite bind_run by exact Hnf. erewrite bind_run by reflexivity. apply wr_obuf_run. exact Hm3. }
+      split; [exact Hi3|]. split; [apply shrink_refl|]. split; [exact Hm3|]. split.
+      + unfold G3. rewrite upd2_other by (left; congruence). apply upd2_same.
+      + intros x H1 H2. congruence.
+    - assert (Hab3 : alive s3 b = true) by (rewrite Hal3; exact Hab2).
+      pose proof Hsh3 as (_ & Etag3 & _ & _ & _ & _ & Egin3 & _).
+      assert (Htb3 : tagof s3 b = TO KBuf) by (rewrite Etag3; exact Htb).
+      assert (Hgb : ginner s3 b = false).
+      { rewrite Egin3. destruct (ginner s2 b) eqn:Eg; [|reflexivity].
+        rewrite (proj2 (i_ginner _ _ _ _ _ _ _ Hi2 b Eg)) in Hin. destruct Hin. }
+      destruct (delete_buf vkind f (m :: X) (b :: W) (m :: D) T G3 s3 b) as (G4 & s4 & Hex4 & Hi4 & Hd4 & Hsh4 & Hk4).
+      + exact Hi3.
+      + exact Hab3.
+      + exact Htb3.
+      + intros [E|H]; [congruence|contradiction].
+      + now left.
+      + intros x _ Hx. rewrite Hnil in Hx. destruct Hx.
+      + intros p Hap Hpw E. destruct (i_inner _ _ _ _ _ _ _ Hi3 p b Hap Hpw E) as (_ & _ & _ & Hg & _). congruence.
+      + lia.
+      + assert (Honly : forall x, alive s3 x = true -> alive s4 x = false -> x = b).
+        { intros x H1 H2. destruct (Hk4 x H1 H2) as [E|E]; [exact E|]. rewrite Hnil in E. destruct E. }
+        assert (Hm4 : alive s4 m = true).
+        { destruct (alive s4 m) eqn:E; [reflexivity|]. exfalso. apply Hbm. symmetry. now apply Honly. }
+        exists G4, s4. split.
+        { erewrite bind_run by exact Hnf. erewrite bind_run by exact Hex4. apply wr_obuf_run. exact Hm4. }
+        split; [eapply inv_unW_dead; eassumption|]. split; [exact Hsh4|]. split; [exact Hm4|]. split; [|exact Honly].
+        eapply ring_nil_preserved; [exact Hi3|exact Hi4|exact Hsh4|apply incl_refl|].
+        unfold G3. rewrite upd2_other by (left; congruence). apply upd2_same. }
+  destruct Hstep as (G4 & s4 & Hex4 & Hi4 & Hsh4 & Hm4 & Hnil4 & Hk4).
+  set (s5 := set_obuf s4 (upd (obuf s4) m None)) in *.
+  pose proof (shrink_trans _ _ _ Hsh03 Hsh4) as Hsh04.
+  assert (Ht4 : tagof s4 m = TO KMem) by (destruct Hsh04 as (_ & E & _); rewrite E; exact Ht).
+  assert (Hi5 : inv (m :: X) W (m :: D) T G4 s5) by (apply inv_set_obuf; [exact Hi4|now left|exact Ht4]).
+  assert (Hbody : (exec f (TNull m);;; b0 <- rd obuf m;;
+            match b0 with
+            | Some b1 => buf_removeModeMemoryRef b1 m;;; nf <- buf_needsFree b1;;
+                         (if nf then exec f (TDelete b1) else ret tt);;; wr_obuf m None
+            | None => ret tt end) s1 = Some (tt, s5)).
+  { erewrite bind_run by exact Hex2. erewrite bind_run by (apply rd_run; exact Hm2). rewrite Hobs.
+    erewrite bind_run by exact Hrun3. exact Hex4. }
+  erewrite bind_run by exact Hbody.
+  assert (Hm5 : alive s5 m = true) by (unfold s5; simpl_st; exact Hm4).
+  rewrite (kill_run m s5 Hm5).
+  exists G4, (set_alive s5 (upd (alive s5) m false)). split; [reflexivity|]. split; [|split; [|split]].
+  - eapply kill_simple; try exact Hi5.
+    + now right.
+    + exact Hm5.
+    + unfold s5. simpl_st. exact Ht4.
+    + unfold simple_kind. tauto.
+    + exact Hd.
+    + eapply exempt_free; [exact Hi5|now left].
+    + intros sl. destruct sl; try (eapply simple_rings; [exact Hi5| | |discriminate]; [unfold s5; simpl_st; exact Ht4|unfold simple_kind; tauto]).
+      exact Hnil4.
+    + eapply logged_in_D; [exact Hi5|now left].
+  - simpl_st. apply upd_same.
+  - eapply shrink_trans; [exact Hsh04|]. eapply shrink_trans; [apply shrink_obuf|apply shrink_kill].
+  - intros x Hx1 Hx2. simpl_st. destruct (Nat.eq_dec x m) as [->|Hne]; [now left|]. right.
+    rewrite upd_other in Hx2 by exact Hne. unfold s5 in Hx2. simpl_st. f_equal. symmetry. apply Hk4; [|exact Hx2].
+    rewrite Hal3, Hal2. unfold s1. simpl_st. exact Hx1.
 Qed.
 
 End E.
